@@ -29,6 +29,9 @@ type config struct {
 	// Mixed (with Parent): the internal limit the Limiter consults is a fixed-window limit that never refuses
 	// (100000 per minute); the concurrency quota is its parent alone
 	Mixed bool `json:"fixed_window_child,omitempty"`
+	// Cluster: the cluster-liveness component as main() wires it, with this gateway instance id ("" is what an
+	// unset GATEWAY_INSTANCE_ID gives; main() only warns about it); "none" = not wired (library use)
+	Cluster string `json:"cluster_instance_id"`
 	// Second: the flow also consults an independent fixed-window quota that never refuses (100000 per minute),
 	// through a second Limiter placed "after" or "before" the Limiter of the concurrency quota; "conc-after" /
 	// "conc-before": that second quota is a concurrency quota too (100000 slots, never refuses)
@@ -225,6 +228,7 @@ func genConfig() *rapid.Generator[config] {
 			}
 		}
 		c.Second = rapid.SampledFrom([]string{"", "", "after", "before", "conc-after", "conc-before"}).Draw(t, "second")
+		c.Cluster = rapid.SampledFrom([]string{"none", "none", "gw-7f3a", "", ""}).Draw(t, "cluster")
 		return c
 	})
 }
@@ -405,6 +409,8 @@ func runHistoryInner(h hist) (nontrivial bool, classes map[string]int, err error
 	clk := vclock.New(start)
 	lastClk, lastNQ = clk, 1
 	engine.SetClock(clk)
+	engine.SetCluster(h.Config.Cluster)
+	defer engine.SetCluster("none")
 	metrics := engine.NewMetrics()
 	defer metrics.Close()
 	dir, e := engine.NewDir(scratch)
